@@ -179,8 +179,11 @@ func bcryptRaw(pw string) []byte {
 }
 
 // newRWorld builds the full reference stack and serves cfg.
+// rworldTee, when set, is attached to the logger of every world built afterwards (C18's real-logger plane).
+var rworldTee srvx.TeeLogger
+
 func newRWorld(cfg config.ServerConfig, kc *keychainRec, keepLog bool, opts ...tq.Option) (*rworld, error) {
-	lg := &srvx.Logger{Keep: keepLog}
+	lg := &srvx.Logger{Keep: keepLog, Tee: rworldTee}
 	sink := &sinkRec{}
 	acct, err := local.New(lg, local.SetLogSink(sink))
 	if err != nil {
